@@ -1,5 +1,5 @@
 From Coq Require Import Extraction ExtrOcamlBasic List NArith ZArith.
-From BioVerif Require Import Lib.Conv Lib.BitPfx Model.Trie Spec.TrieSpec.
+From BioVerif Require Import Lib.Conv Lib.BitPfx Model.Trie Model.TrieRaw Spec.TrieSpec.
 Extraction Language OCaml.
 
 (* paths are numbered; N.eqb plays route.Path.Compare / Equal *)
@@ -15,5 +15,15 @@ Definition x_spec_get := spec_get N.
 Definition x_spec_lpm := spec_lpm N.
 Definition x_spec_longer := spec_longer N.
 
+(* the raw (non-canonical IPv4) instance, for the "rn" stream *)
+Definition x_r_empty := r_empty N.
+Definition x_r_step := r_step N N.eqb.
+Definition x_r_get := rt_get N.
+Definition x_r_lpm := rt_lpm N.
+Definition x_r_longer := rt_getLonger N.
+Definition x_r_dump := rt_dump N.
+Definition x_r_count := rt_count N.
+
 Extraction "c01_model.ml" conv_anchor x_empty x_step x_get x_lpm x_longer x_dump x_count
-  x_spec_step x_spec_get x_spec_lpm x_spec_longer.
+  x_spec_step x_spec_get x_spec_lpm x_spec_longer
+  x_r_empty x_r_step x_r_get x_r_lpm x_r_longer x_r_dump x_r_count mkR.
